@@ -241,7 +241,7 @@ impl Stream for Z64 {
         }
         // the COMPRESSED-size guard (Deflate level 0 = stored blocks: 4 GiB - 100000 zero bytes compress to more
         // than 0xFFFFFFFF bytes); afterwards the caller keeps writing and finishes
-        if tier == "thorough" {
+        if tier == "thorough" || tier == "search" {
             for extra in [0u64, 1, 40, 100000] { g.push("big.cguard", format!("z64.cguard usize={} extra={extra}", (1u64 << 32) - 100000)); }
         }
         g
